@@ -238,7 +238,10 @@ def r2(R, repo):
     ok = tn <= astu.names_loaded(inner) and len(tn) == 2
   order_dep = [n for n in astu.body_walk(h.node) if isinstance(n, ast.Assign) and isinstance(n.value, ast.Call) and astu.call_name(n.value) == 'hash' and
                any(isinstance(t_, ast.Name) and t_.id in astu.names_loaded(n.value) for t_ in n.targets) and any(n is x for lp_ in loops for x in ast.walk(lp_))]
-  R.judge(ok or bool(order_dep) or (len(augs) == 1 and len(loops) == 1), ok, key_of(h, 'commutative fold over hash((key, value))'), h,
+  seq_hash = [x for x in astu.func_calls(h) if astu.call_name(x) == 'hash' and x.args and any(isinstance(e_, ast.Call) and astu.call_name(e_) in ('tuple', 'list') and e_.args and
+              any(isinstance(y, ast.Call) and astu.call_tail(y) in ('items', 'keys', 'values') for y in ast.walk(e_)) and not any(isinstance(y, ast.Call) and astu.call_name(y) in ('sorted', 'frozenset', 'set') for y in ast.walk(e_))
+              for e_ in evid.expand(h, x.args[0]) if isinstance(e_, ast.AST))]
+  R.judge(ok or bool(order_dep) or bool(seq_hash) or (len(augs) == 1 and len(loops) == 1), ok and not seq_hash, key_of(h, 'commutative fold over hash((key, value))'), h,
           'FrozenDict.__hash__ must combine hash((key, value)) of every item with a commutative operator (insertion order must not matter)')
 
 
@@ -524,6 +527,7 @@ meta('C15',
          Mutant('C15-m8', FD, "  return {key: _prepare_freeze(val) for key, val in xs.items()}", "  return dict(xs)", 'C15.R3'),
          Mutant('C15-m9', FD, "      yield (key, self[key])", "      yield (key, self._dict[key])", 'C15.R1'),
          Mutant('C15-m10', FD, "  if not isinstance(xs, dict):\n    # return a leaf as is.\n    return xs", "  if not isinstance(xs, dict) or not xs:\n    # return a leaf as is.\n    return xs", 'C15.R3', why='seed C15-A'),
+         Mutant('C15-m11', FD, "      h = 0\n      for key, value in self.items():\n        h ^= hash((key, value))\n      self._hash = h", "      self._hash = hash(tuple(self.items()))", 'C15.R2', why='seed C15-D (round 2)'),
          Mutant('C15-b1', FD, "    v = self._dict[key]\n    if isinstance(v, dict):\n      return FrozenDict(v)\n    return v",
                 "    v = self._dict[key]\n    if not isinstance(v, dict):\n      return v\n    return FrozenDict(v)", kind='benign'),
      ])
